@@ -170,7 +170,9 @@ def r3_link_move_table(chk: Check):
             canon[src(t)] = src(n.ast.value)
     chk.require(canon.get("old_identifier") == "job_path.parent.name" and canon.get("new_identifier") == "job.__xpm__.identifier.all.hex()", chk.fkey(f, "identifiers compared"),
                 f"old/new identifiers are {canon.get('old_identifier')} / {canon.get('new_identifier')}", loc)
-    chk.require(canon.get("newjobpath") == "jobspath / str(job.__xpmtype__.identifier) / new_identifier" and canon.get("oldjobpath") == "jobspath / name / old_identifier", chk.fkey(f, "paths"),
+    okp = canon.get("newjobpath") in ("jobspath / str(job.__xpmtype__.identifier) / new_identifier", "workpath / 'jobs' / str(job.__xpmtype__.identifier) / new_identifier") \
+        and canon.get("oldjobpath") in ("jobspath / name / old_identifier", "workpath / 'jobs' / name / old_identifier")
+    chk.require(okp, chk.fkey(f, "paths"),
                 f"old/new job paths are {canon.get('oldjobpath')} / {canon.get('newjobpath')}: the new location must be jobs/<current type identifier>/<recomputed identifier>", loc)
     lj = tree.func("tools.jobs", "load_job")
     chk.require("discard_id=discard_id" in src(lj.node) and "discard_id=True" in src(lj.node), chk.fkey(lj, "recomputes"), "load_job must discard the stored identifier so that it is recomputed", chk.loc(lj.module, lj.node))
